@@ -72,9 +72,10 @@ class _Printed(object):
         for tn, tab in lst._table.items():
             sig = c6.table_signature(tab.num_keys, tab.column_name)
             int_first = tab.column_name[0] == 'I'
-            rows0 = c6.table_rows(lines, self.bounds[0], self.bounds[1], sig, int_first) if self.sets else []
+            rows0 = []
+            for ik_ in range(len(self.sets)): rows0 += c6.table_rows(lines, self.bounds[ik_], self.bounds[ik_ + 1], sig, int_first)
             ref = None
-            for no, nm, toks in rows0:          # the longest row (first among equals) fixes the columns of TOUGH2-style tables
+            for no, nm, toks in rows0:          # the longest row (anywhere in the file; first among equals) fixes the columns of TOUGH2-style tables
                 if ref is None or len(lines[no].strip()) > len(lines[ref[0]].strip()): ref = (no, toks)
             names = [_tup(x) for x in tab.row_name]
             self.info[tn] = dict(sig=sig, int_first=int_first, ref_ends=[t['end'] for t in ref[1]] if ref else [], names=names,
